@@ -12,10 +12,21 @@ import (
 // ShutdownScenario draws traffic mixed with one or more stop causes (Stop,
 // peer close, injected Recv/Send faults) at any position, records arriving
 // after the stop, WaitStatus, and a restart on a fresh channel with a probe.
-func ShutdownScenario(t *rapid.T) sim.Scenario {
+func ShutdownScenario(t *rapid.T) sim.Scenario { return shutdownScenario(t, nil) }
+
+// ShutdownScenarioPool is ShutdownScenario with every request id drawn from a
+// small pool, always a restart, and more traffic on the second connection: ids
+// that were in flight when the first connection ended come round again.
+func ShutdownScenarioPool(t *rapid.T, pool []string) sim.Scenario { return shutdownScenario(t, pool) }
+
+func shutdownScenario(t *rapid.T, pool []string) sim.Scenario {
 	p := Profile{
 		Limits: []int{1, 2, 32}, PNote: 40, PGate: 60, PInvalid: 15, PUnknown: 8, PBatch: 35, MaxBatch: 3, PTopInvalid: 8,
 		PObey: 50, Builtins: true, AllowPush: true,
+	}
+	if pool != nil {
+		p.IDPool = pool
+		p.PNote, p.PInvalid, p.PTopInvalid = 10, 4, 2
 	}
 	sc := sim.Scenario{}
 	sc.Cfg.Concurrency = pick(t, "limit", p.Limits)
@@ -110,7 +121,7 @@ func ShutdownScenario(t *rapid.T) sim.Scenario {
 	if rapid.Bool().Draw(t, "wait") {
 		sc.Steps = append(sc.Steps, sim.Step{Op: "waitstatus"})
 	}
-	if rapid.IntRange(0, 2).Draw(t, "restart") != 0 {
+	if pool != nil || rapid.IntRange(0, 2).Draw(t, "restart") != 0 {
 		// release everything so that WaitStatus can return, then restart
 		for _, k := range st.Pending {
 			sc.Steps = append(sc.Steps, sim.Step{Op: "release", K: k, Out: "ok"})
@@ -118,7 +129,9 @@ func ShutdownScenario(t *rapid.T) sim.Scenario {
 		st.Pending = nil
 		sc.Steps = append(sc.Steps, sim.Step{Op: "peerclose"}, sim.Step{Op: "waitstatus"}, sim.Step{Op: "restart"},
 			sim.Step{Op: "send", Rec: engine.Bytes(fmt.Sprintf(`{"jsonrpc":"2.0","id":"probe","method":"ret","params":{"k":%d}}`, 800000))})
-		if rapid.Bool().Draw(t, "more") {
+		if pool != nil {
+			traffic(rapid.IntRange(2, 8).Draw(t, "second"), 20)
+		} else if rapid.Bool().Draw(t, "more") {
 			traffic(rapid.IntRange(0, 3).Draw(t, "second"), 20)
 		}
 	}
